@@ -76,14 +76,7 @@ LateOwed == {id \in 1..Len(em) :
                      /\ dl[i].g = em[id].g /\ dl[i].ws <= em[id].ts /\ em[id].ts < dl[i].we /\ dl[i].at < em[id].at
                      /\ dl[i].we + cfg.al > em[id].wmAt
                      /\ ~\E j \in 1..Len(dl) : dl[j].g = dl[i].g /\ dl[j].ws = dl[i].ws /\ dl[j].at > em[id].at /\ id \in SeqSet(dl[j].ids)}
-\* ... unless a LATER session of the same key had fired as well by then: the engine keeps one fired session per key open
-Superseded(id) == \E i, k \in 1..Len(dl) :
-                     /\ dl[i].g = em[id].g /\ dl[i].ws <= em[id].ts /\ em[id].ts < dl[i].we /\ dl[i].at < em[id].at
-                     /\ dl[k].g = em[id].g /\ dl[k].ws > dl[i].ws /\ dl[k].at < em[id].at
-QuiesceCode ==
-  IF \E id \in LateOwed : ~Superseded(id) THEN "late_row_in_allowance_not_redelivered"
-  ELSE IF LateOwed # {} /\ "SessionKeepsOneFiredSessionPerKey" \notin Dev THEN "late_row_in_allowance_not_redelivered_older_session"
-  ELSE ""
+QuiesceCode == IF LateOwed # {} THEN "late_row_in_allowance_not_redelivered" ELSE ""
 
 Reject(code) == /\ PrintT(<<"REJECT", cfg.tr, l, code>>) /\ dead' = TRUE
 Add(e) == dl \o [i \in 1..Len(e.rows) |-> [ws |-> e.rows[i].ws, we |-> e.rows[i].we, g |-> e.rows[i].g, ids |-> e.rows[i].ids, at |-> l]]
@@ -114,9 +107,7 @@ Next ==
         ELSE Reject(c[1]) /\ UNCHANGED <<cfg, em, maxTs, dl, pwm>>
      ELSE IF e.e = "quiesce" THEN
         LET code == QuiesceCode IN
-        /\ IF code = "" THEN
-              (IF LateOwed # {} THEN PrintT(<<"DEV", cfg.tr, l, "SessionKeepsOneFiredSessionPerKey">>) ELSE TRUE) /\ UNCHANGED dead
-           ELSE Reject(code)
+        /\ IF code = "" THEN UNCHANGED dead ELSE Reject(code)
         /\ UNCHANGED <<cfg, em, maxTs, dl, pwm>>
      ELSE IF e.e = "pwm" THEN
         /\ pwm' = IF e.wm > pwm THEN e.wm ELSE pwm
